@@ -137,43 +137,43 @@ macro_rules! latest_newest_harness {
     };
 }
 
-//@ob fn="<Latest<T,C,E> as Getter<T,E>>::get" at=src/streams.rs:26 prop=C02,C03 bounded="arity 1 (const generic; complete for this C)" clause="C=1, all inputs symbolic at once: get()==spec: never an error (errored inputs skipped), absent inputs skipped, absent iff no input present, otherwise the present input with the newest timestamp, the earliest such input on equal timestamps"
+//@ob fn="<Latest<T,C,E> as Getter<T,E>>::get" at=src/streams.rs:26 prop=C02,C03 instance="arity 1 (const generic; complete for this C)" clause="C=1, all inputs symbolic at once: get()==spec: never an error (errored inputs skipped), absent inputs skipped, absent iff no input present, otherwise the present input with the newest timestamp, the earliest such input on equal timestamps"
 latest_spec_harness!(c02_latest_c1_spec, 1, 3, [s0]);
-//@ob fn="<Latest<T,C,E> as Getter<T,E>>::get" at=src/streams.rs:26 prop=C02,C03 bounded="arity 2 (const generic; complete for this C)" clause="C=2, all inputs symbolic at once: get()==spec: never an error (errored inputs skipped), absent inputs skipped, absent iff no input present, otherwise the present input with the newest timestamp, the earliest such input on equal timestamps"
+//@ob fn="<Latest<T,C,E> as Getter<T,E>>::get" at=src/streams.rs:26 prop=C02,C03 instance="arity 2 (const generic; complete for this C)" clause="C=2, all inputs symbolic at once: get()==spec: never an error (errored inputs skipped), absent inputs skipped, absent iff no input present, otherwise the present input with the newest timestamp, the earliest such input on equal timestamps"
 latest_spec_harness!(c02_latest_c2_spec, 2, 4, [s0, s1]);
-//@ob fn="<Latest<T,C,E> as Getter<T,E>>::get" at=src/streams.rs:26 prop=C02,C03 bounded="arity 3 (const generic; complete for this C)" clause="C=3, all inputs symbolic at once: get()==spec: never an error (errored inputs skipped), absent inputs skipped, absent iff no input present, otherwise the present input with the newest timestamp, the earliest such input on equal timestamps"
+//@ob fn="<Latest<T,C,E> as Getter<T,E>>::get" at=src/streams.rs:26 prop=C02,C03 instance="arity 3 (const generic; complete for this C)" clause="C=3, all inputs symbolic at once: get()==spec: never an error (errored inputs skipped), absent inputs skipped, absent iff no input present, otherwise the present input with the newest timestamp, the earliest such input on equal timestamps"
 latest_spec_harness!(c02_latest_c3_spec, 3, 5, [s0, s1, s2]);
-//@ob fn="<Latest<T,C,E> as Getter<T,E>>::get" at=src/streams.rs:26 prop=C02,C03 bounded="arity 4 (const generic; complete for this C)" clause="C=4, all inputs symbolic at once: get()==spec: never an error (errored inputs skipped), absent inputs skipped, absent iff no input present, otherwise the present input with the newest timestamp, the earliest such input on equal timestamps"
+//@ob fn="<Latest<T,C,E> as Getter<T,E>>::get" at=src/streams.rs:26 prop=C02,C03 instance="arity 4 (const generic; complete for this C)" clause="C=4, all inputs symbolic at once: get()==spec: never an error (errored inputs skipped), absent inputs skipped, absent iff no input present, otherwise the present input with the newest timestamp, the earliest such input on equal timestamps"
 latest_spec_harness!(c02_latest_c4_spec, 4, 6, [s0, s1, s2, s3]);
-//@ob fn="<Latest<T,C,E> as Getter<T,E>>::get" at=src/streams.rs:26 prop=C02,C03 bounded="arity 5 (const generic; complete for this C)" clause="C=5, all inputs symbolic at once: get()==spec: never an error (errored inputs skipped), absent inputs skipped, absent iff no input present, otherwise the present input with the newest timestamp, the earliest such input on equal timestamps"
+//@ob fn="<Latest<T,C,E> as Getter<T,E>>::get" at=src/streams.rs:26 prop=C02,C03 instance="arity 5 (const generic; complete for this C)" clause="C=5, all inputs symbolic at once: get()==spec: never an error (errored inputs skipped), absent inputs skipped, absent iff no input present, otherwise the present input with the newest timestamp, the earliest such input on equal timestamps"
 latest_spec_harness!(c02_latest_c5_spec, 5, 7, [s0, s1, s2, s3, s4]);
-//@ob fn="<Latest<T,C,E> as Getter<T,E>>::get" at=src/streams.rs:26 prop=C02,C03 tier=thorough bounded="arity 6 (const generic; complete for this C)" clause="C=6, all inputs symbolic at once: get()==spec (as for C=1..5)"
+//@ob fn="<Latest<T,C,E> as Getter<T,E>>::get" at=src/streams.rs:26 prop=C02,C03 tier=thorough instance="arity 6 (const generic; complete for this C)" clause="C=6, all inputs symbolic at once: get()==spec (as for C=1..5)"
 latest_spec_harness!(c02_latest_c6_spec, 6, 8, [s0, s1, s2, s3, s4, s5]);
-//@ob fn="<Latest<T,C,E> as Getter<T,E>>::get" at=src/streams.rs:26 prop=C02,C03 tier=thorough bounded="arity 7 (const generic; complete for this C)" clause="C=7, all inputs symbolic at once: get()==spec (as for C=1..5)"
+//@ob fn="<Latest<T,C,E> as Getter<T,E>>::get" at=src/streams.rs:26 prop=C02,C03 tier=thorough instance="arity 7 (const generic; complete for this C)" clause="C=7, all inputs symbolic at once: get()==spec (as for C=1..5)"
 latest_spec_harness!(c02_latest_c7_spec, 7, 9, [s0, s1, s2, s3, s4, s5, s6]);
-//@ob fn="<Latest<T,C,E> as Getter<T,E>>::get" at=src/streams.rs:26 prop=C02,C03 tier=thorough bounded="arity 8 (const generic; complete for this C)" clause="C=8, all inputs symbolic at once: get()==spec (as for C=1..5)"
+//@ob fn="<Latest<T,C,E> as Getter<T,E>>::get" at=src/streams.rs:26 prop=C02,C03 tier=thorough instance="arity 8 (const generic; complete for this C)" clause="C=8, all inputs symbolic at once: get()==spec (as for C=1..5)"
 latest_spec_harness!(c02_latest_c8_spec, 8, 10, [s0, s1, s2, s3, s4, s5, s6, s7]);
 
-//@ob fn="<Latest<T,C,E> as Getter<T,E>>::get" at=src/streams.rs:26 prop=C02,C03 bounded="arity 1 (const generic; complete for this C)" clause="C=1 (C03 selection, tie-agnostic): result is never an error; if present it equals one of the present inputs and no present input is strictly newer; absent iff no input is present"
+//@ob fn="<Latest<T,C,E> as Getter<T,E>>::get" at=src/streams.rs:26 prop=C02,C03 instance="arity 1 (const generic; complete for this C)" clause="C=1 (C03 selection, tie-agnostic): result is never an error; if present it equals one of the present inputs and no present input is strictly newer; absent iff no input is present"
 latest_newest_harness!(c02_latest_c1_newest, 1, 3, [s0]);
-//@ob fn="<Latest<T,C,E> as Getter<T,E>>::get" at=src/streams.rs:26 prop=C02,C03 bounded="arity 2 (const generic; complete for this C)" clause="C=2 (C03 selection, tie-agnostic): result is never an error; if present it equals one of the present inputs and no present input is strictly newer; absent iff no input is present"
+//@ob fn="<Latest<T,C,E> as Getter<T,E>>::get" at=src/streams.rs:26 prop=C02,C03 instance="arity 2 (const generic; complete for this C)" clause="C=2 (C03 selection, tie-agnostic): result is never an error; if present it equals one of the present inputs and no present input is strictly newer; absent iff no input is present"
 latest_newest_harness!(c02_latest_c2_newest, 2, 4, [s0, s1]);
-//@ob fn="<Latest<T,C,E> as Getter<T,E>>::get" at=src/streams.rs:26 prop=C02,C03 bounded="arity 3 (const generic; complete for this C)" clause="C=3 (C03 selection, tie-agnostic): result is never an error; if present it equals one of the present inputs and no present input is strictly newer; absent iff no input is present"
+//@ob fn="<Latest<T,C,E> as Getter<T,E>>::get" at=src/streams.rs:26 prop=C02,C03 instance="arity 3 (const generic; complete for this C)" clause="C=3 (C03 selection, tie-agnostic): result is never an error; if present it equals one of the present inputs and no present input is strictly newer; absent iff no input is present"
 latest_newest_harness!(c02_latest_c3_newest, 3, 5, [s0, s1, s2]);
-//@ob fn="<Latest<T,C,E> as Getter<T,E>>::get" at=src/streams.rs:26 prop=C02,C03 bounded="arity 4 (const generic; complete for this C)" clause="C=4 (C03 selection, tie-agnostic): result is never an error; if present it equals one of the present inputs and no present input is strictly newer; absent iff no input is present"
+//@ob fn="<Latest<T,C,E> as Getter<T,E>>::get" at=src/streams.rs:26 prop=C02,C03 instance="arity 4 (const generic; complete for this C)" clause="C=4 (C03 selection, tie-agnostic): result is never an error; if present it equals one of the present inputs and no present input is strictly newer; absent iff no input is present"
 latest_newest_harness!(c02_latest_c4_newest, 4, 6, [s0, s1, s2, s3]);
-//@ob fn="<Latest<T,C,E> as Getter<T,E>>::get" at=src/streams.rs:26 prop=C02,C03 bounded="arity 5 (const generic; complete for this C)" clause="C=5 (C03 selection, tie-agnostic): result is never an error; if present it equals one of the present inputs and no present input is strictly newer; absent iff no input is present"
+//@ob fn="<Latest<T,C,E> as Getter<T,E>>::get" at=src/streams.rs:26 prop=C02,C03 instance="arity 5 (const generic; complete for this C)" clause="C=5 (C03 selection, tie-agnostic): result is never an error; if present it equals one of the present inputs and no present input is strictly newer; absent iff no input is present"
 latest_newest_harness!(c02_latest_c5_newest, 5, 7, [s0, s1, s2, s3, s4]);
 
-//@ob fn="<Latest<T,C,E> as Getter<T,E>>::get" at=src/streams.rs:26 prop=C02 bounded="arity 1 (const generic; complete for this C)" clause="C=1: purity: a second get() returns a result equal to the first, every input still holds the output it had and was not updated"
+//@ob fn="<Latest<T,C,E> as Getter<T,E>>::get" at=src/streams.rs:26 prop=C02 instance="arity 1 (const generic; complete for this C)" clause="C=1: purity: a second get() returns a result equal to the first, every input still holds the output it had and was not updated"
 latest_pure_harness!(c02_latest_c1_pure, 1, 3, [s0]);
-//@ob fn="<Latest<T,C,E> as Getter<T,E>>::get" at=src/streams.rs:26 prop=C02 bounded="arity 2 (const generic; complete for this C)" clause="C=2: purity: a second get() returns a result equal to the first, every input still holds the output it had and was not updated"
+//@ob fn="<Latest<T,C,E> as Getter<T,E>>::get" at=src/streams.rs:26 prop=C02 instance="arity 2 (const generic; complete for this C)" clause="C=2: purity: a second get() returns a result equal to the first, every input still holds the output it had and was not updated"
 latest_pure_harness!(c02_latest_c2_pure, 2, 4, [s0, s1]);
-//@ob fn="<Latest<T,C,E> as Getter<T,E>>::get" at=src/streams.rs:26 prop=C02 bounded="arity 3 (const generic; complete for this C)" clause="C=3: purity: a second get() returns a result equal to the first, every input still holds the output it had and was not updated"
+//@ob fn="<Latest<T,C,E> as Getter<T,E>>::get" at=src/streams.rs:26 prop=C02 instance="arity 3 (const generic; complete for this C)" clause="C=3: purity: a second get() returns a result equal to the first, every input still holds the output it had and was not updated"
 latest_pure_harness!(c02_latest_c3_pure, 3, 5, [s0, s1, s2]);
-//@ob fn="<Latest<T,C,E> as Getter<T,E>>::get" at=src/streams.rs:26 prop=C02 bounded="arity 4 (const generic; complete for this C)" clause="C=4: purity: a second get() returns a result equal to the first, every input still holds the output it had and was not updated"
+//@ob fn="<Latest<T,C,E> as Getter<T,E>>::get" at=src/streams.rs:26 prop=C02 instance="arity 4 (const generic; complete for this C)" clause="C=4: purity: a second get() returns a result equal to the first, every input still holds the output it had and was not updated"
 latest_pure_harness!(c02_latest_c4_pure, 4, 6, [s0, s1, s2, s3]);
-//@ob fn="<Latest<T,C,E> as Getter<T,E>>::get" at=src/streams.rs:26 prop=C02 bounded="arity 5 (const generic; complete for this C)" clause="C=5: purity: a second get() returns a result equal to the first, every input still holds the output it had and was not updated"
+//@ob fn="<Latest<T,C,E> as Getter<T,E>>::get" at=src/streams.rs:26 prop=C02 instance="arity 5 (const generic; complete for this C)" clause="C=5: purity: a second get() returns a result equal to the first, every input still holds the output it had and was not updated"
 latest_pure_harness!(c02_latest_c5_pure, 5, 7, [s0, s1, s2, s3, s4]);
 
 // ---------------------------------------------------------------------------------------------------------------
